@@ -126,3 +126,27 @@ func (w *Writer) Write(p []byte) (int, error) {
 	w.Data = append(w.Data, p...)
 	return len(p), nil
 }
+
+// AlignedChunks builds a chunk list that makes reads end exactly delta bytes
+// after each of the given stream offsets (record boundaries), the way a
+// producer that flushes once per record fills a pipe. Reads never exceed max
+// bytes (the consumer's buffer size).
+func AlignedChunks(bounds []int, delta, max int) []int {
+	var out []int
+	pos := 0
+	for _, b := range bounds {
+		target := b + delta
+		for pos < target {
+			n := target - pos
+			if n > max {
+				n = max
+			}
+			out = append(out, n)
+			pos += n
+		}
+	}
+	if len(out) == 0 {
+		return nil
+	}
+	return append(out, max)
+}
